@@ -175,6 +175,7 @@ def run(ctx: RuleContext, p: Program) -> None:
     ctx.try_rule(handmodels.rule_hand_clone, p, 'COVER-CLONE')
     ctx.try_rule(rule_token_clone, p, 'TOKEN-CLONE')
     ctx.try_rule(seps.rule_sep_prov, p, 'SEP-PROV')
+    ctx.try_rule(seps.rule_sep_fresh, p, 'SEP-FRESH')
     ctx.not_decided += ['that the copy compares equal (structural part under C20)', 'exact spans at reordered placeholders',
                         'independence under later edits as a runtime fact']
     ctx.assumptions += ['copy.deepcopy(token) dispatches to RawTokenModel.__deepcopy__', 'TokenStore.from_tokens builds a new store']
